@@ -229,3 +229,111 @@ theorem not_conserved_of_lost {s : State} (hA : Acc s) (hl : s.lost ≠ []) :
   exact hl (List.length_eq_zero_iff.mp this)
 
 end Ferrous.Blk
+
+namespace Ferrous.Blk
+
+/-! ## The deadline scan leaves no expired entry behind -/
+
+@[simp] theorem timeoutConn_registry (s : State) (c : Conn) : (timeoutConn s c).registry = s.registry := by
+  unfold timeoutConn; split <;> simp
+
+@[simp] theorem timeoutConn_wakeQ (s : State) (c : Conn) : (timeoutConn s c).wakeQ = s.wakeQ := by
+  unfold timeoutConn; split <;> simp
+
+theorem expireOne_wakeQ (now : Nat) (s : State) : (expireOne now s).wakeQ = s.wakeQ := by
+  unfold expireOne; split
+  · rfl
+  · simp
+
+theorem iter_expireOne_wakeQ (now : Nat) : ∀ n s, (iter (expireOne now) n s).wakeQ = s.wakeQ := by
+  intro n
+  induction n with
+  | zero => intro s; rfl
+  | succ n ih => intro s; simp only [iter]; rw [ih, expireOne_wakeQ]
+
+theorem expireOne_count (now : Nat) (s : State) :
+    (expireOne now s).registry.countP (isExpired now) = s.registry.countP (isExpired now) - 1 := by
+  unfold expireOne
+  split
+  · next hp =>
+    have : s.registry.countP (isExpired now) = 0 :=
+      List.countP_eq_zero.mpr fun y hy => by simp [popFirst_none hp y hy]
+    omega
+  · next e reg' hp =>
+    obtain ⟨a, b, h1, h2, h3, _⟩ := popFirst_some hp
+    rw [timeoutConn_registry]
+    show reg'.countP (isExpired now) = _
+    rw [h1, h2, countP_remove, h3]
+    simp
+
+theorem iter_expireOne_count (now : Nat) :
+    ∀ n s, s.registry.countP (isExpired now) ≤ n → (iter (expireOne now) n s).registry.countP (isExpired now) = 0 := by
+  intro n
+  induction n with
+  | zero => intro s h; simp only [iter]; omega
+  | succ n ih =>
+    intro s h
+    simp only [iter]
+    apply ih
+    rw [expireOne_count]; omega
+
+/-- A step of the scan leaves a connection's blocked state alone or clears it. -/
+theorem expireOne_blocked_or_none (now : Nat) (s : State) (c : Conn) :
+    ((expireOne now s).conns c).blocked = (s.conns c).blocked ∨ ((expireOne now s).conns c).blocked = none := by
+  unfold expireOne
+  split
+  · exact .inl rfl
+  · next e reg' _ =>
+    by_cases hc : c = e.2.conn
+    · unfold timeoutConn
+      split
+      · next hl =>
+        right
+        have h0 : e.2.conn ≠ 0 := by
+          intro h; simp [isBlockedLive, h] at hl
+        rw [hc]; exact setBlocked_blocked_self _ _ _ h0
+      · exact .inl rfl
+    · left; rw [timeoutConn_conns_ne _ _ _ hc]
+
+theorem iter_expireOne_blocked_or_none (now : Nat) (c : Conn) :
+    ∀ n s, ((iter (expireOne now) n s).conns c).blocked = (s.conns c).blocked ∨
+      ((iter (expireOne now) n s).conns c).blocked = none := by
+  intro n
+  induction n with
+  | zero => intro s; exact .inl rfl
+  | succ n ih =>
+    intro s
+    simp only [iter]
+    rcases ih (expireOne now s) with h | h
+    · rcases expireOne_blocked_or_none now s c with g | g
+      · exact .inl (h.trans g)
+      · exact .inr (h.trans g)
+    · exact .inr h
+
+/-- After the scan at `now`, a registered client whose deadline has passed is no longer blocked. -/
+theorem Inv.timeout_fires {s : State} (hI : Inv s) (now : Nat) (c : Conn) (b : Blocked) (d : Nat)
+    (hb : (s.conns c).blocked = some b) (hd : b.deadline = some d) (hle : d ≤ now)
+    (hw : ∀ w, w ∈ s.wakeQ → w.conn ≠ c) :
+    ((iter (expireOne now) s.registry.length s).conns c).blocked = none := by
+  rcases iter_expireOne_blocked_or_none now c s.registry.length s with h | h
+  · exfalso
+    have hI' : Inv (iter (expireOne now) s.registry.length s) := Inv_iter (Inv_expireOne now) _ _ hI
+    have hb' : ((iter (expireOne now) s.registry.length s).conns c).blocked = some b := h.trans hb
+    have hmem := hI'.cover c (by rw [hb']; simp)
+    rcases mem_line_iff.mp hmem with ⟨k, w, hkw, hwc⟩ | ⟨w, hw', hwc⟩
+    · have hr := hI'.regOk k w hkw
+      rw [hwc, hb'] at hr
+      have hdl : b.deadline = w.deadline := by have := Option.some.inj hr; rw [this]
+      have hexp : isExpired now (k, w) = true := by
+        unfold isExpired
+        rw [← hdl, hd]
+        simpa using hle
+      have h0 := iter_expireOne_count now s.registry.length s List.countP_le_length
+      have := List.countP_eq_zero.mp h0 (k, w) hkw
+      rw [hexp] at this
+      exact this rfl
+    · rw [iter_expireOne_wakeQ] at hw'
+      exact hw w hw' hwc
+  · exact h
+
+end Ferrous.Blk
